@@ -47,11 +47,18 @@ def C17_full : Prop :=
   ∀ (ops : List Op) (o : Op) (i cut : Nat) (mode : Mode), Asc none (ops ++ [o]) → FitsRun {} (ops ++ [o]) →
     C17_conclusion (({} : AStore).run ops).1 (((({} : AStore).run ops).1).step o).1 (C17_recovered ops o i cut mode)
 
-/-- **C17_partial** — the statement restricted to crash points BETWEEN primitives for a process crash (`cut = 0`; the recorded
-    windows — torn index line, torn 19-byte counter — are cuts INSIDE a write) and to every power-loss point (any cut):
-    for every history and every operation the recovered view satisfies the whole conclusion. -/
+/-- the crash point lies inside the write of the index line of a save (primitive 1 of `SaveMessage`: body, index line, syncs) -/
+def C17_insideIndexLineWrite (o : Op) (i : Nat) : Prop := isSave o = true ∧ i = 1
+
+/-- **C17_partial** — for EVERY history and every operation the recovered view satisfies the whole conclusion at
+    * every crash point BETWEEN primitives of a process crash (`cut = 0`),
+    * every cut INSIDE the write of an index line (since the `fix:` that drops an incomplete trailing index line on open),
+    * every power-loss point (any cut; syncing on).
+    What is left out is exactly the recorded window: a process crash INSIDE the in-place rewrite of a 19-byte counter file
+    (`C17_full_false`) — and, trivially harmless but not covered, cuts inside the body write and the session-file write. -/
 theorem C17_partial (ops : List Op) (o : Op) (i cut : Nat) (mode : Mode)
-    (ha : Asc none (ops ++ [o])) (hf : FitsRun {} (ops ++ [o])) (hpt : mode = .process → cut = 0) :
+    (ha : Asc none (ops ++ [o])) (hf : FitsRun {} (ops ++ [o]))
+    (hpt : mode = .process → cut = 0 ∨ C17_insideIndexLineWrite o i) :
     C17_conclusion (({} : AStore).run ops).1 (((({} : AStore).run ops).1).step o).1 (C17_recovered ops o i cut mode) := by
   obtain ⟨ha1, ha2⟩ := asc_append ops o none ha
   obtain ⟨hf1, hf2⟩ := fitsRun_append ops o {} hf
